@@ -110,6 +110,19 @@ def snapshot(c):
     return None
 
 
+def snapshots(c):
+    """the child's state at every exec attempt (the first one is `snapshot(c)`)"""
+    out = []
+    for l in c["log"]:
+        if l.startswith("C snapshot") or l.startswith("C resnapshot"):
+            d = {}
+            for t in l.split()[2:]:
+                k, _, v = t.partition("=")
+                d[k] = v
+            out.append(d)
+    return out
+
+
 def child_vec(c, label):
     for l in c["log"]:
         if l.startswith("C " + label + " "):
@@ -388,6 +401,14 @@ def gen_c07(ctx, probe_results=None):
         cases.append(f"in=P out=N err=M det={det} argv={hx(os.path.join(dirs['noexec'], 'prog'))}")
         cases.append(f"in=N out=P err=N det={det} cwd={hx(dirs['missing'])} argv={TRUE}")
         cases.append(f"in=N out=N err=N det={det} argv={hx('prog')} path={hx(dirs['missing'] + ':' + dirs['noexec'])}")
+    # a relative program path is relative to the CHILD's working directory: present there and absent in the caller's (must
+    # start), absent there and present in the caller's (must fail with ENOENT) -- also through `executable`
+    for det in (0, 1):
+        cases.append(f"in=N out=P err=N det={det} argv={hx('good/prog')} cwd={hx(FS)} expect=ok")
+        cases.append(f"in=P out=N err=N det={det} argv={hx('./prog')} cwd={hx(dirs['good'])} expect=ok")
+        cases.append(f"in=N out=N err=P det={det} argv={hx('name0')} exe={hx('good2/prog')} cwd={hx(FS)} expect=ok")
+        cases.append(f"in=N out=N err=N det={det} argv={hx('checks/spawn.py')} cwd={hx(dirs['good'])} expect=err2")
+        cases.append(f"in=P out=P err=P det={det} argv={hx('missing/prog')} cwd={hx(FS)} expect=err2")
     # the caller runs with some of its descriptors 0-2 closed: the launch-status pipe lands there and must survive the
     # child's stream set-up
     for closed in CLOSED_SETS:
@@ -423,6 +444,11 @@ def oracle_c07(c, viol):
                      f"end-of-file on it until the program exits, and takes anything the program writes there for an error code")
     if res[0] != "ok" and started:
         viol(f"Popen::create returned {' '.join(res)} although the program was started")
+    if kv.get("expect") == "ok" and res[0] != "ok":
+        viol(f"every step of this launch succeeds (the program is there, relative to the child's working directory), but "
+             f"Popen::create returned {' '.join(res)}")
+    if kv.get("expect") == "err2" and res != ["err", "2"]:
+        viol(f"the program does not exist relative to the child's working directory: expected ENOENT, got {' '.join(res)}")
     faults = kv.get("faults", "-")
     if faults != "-" and res[0] == "err":
         want = faults.split(".")[3]
@@ -600,6 +626,13 @@ def gen_c17(ctx):
         for sh in paths:
             cases.append(f"in=N out=N err=N det=0 argv={hx(nm)} path={hx(':'.join(sh))}")
     cases.append(f"in=N out=N err=N det=0 argv={hx('prog')} path={hx(d['long'])}")
+    # PATH entries that are not valid UTF-8 (an `OsStr` is bytes: anything that goes through a string conversion allocates),
+    # with and without trailing slashes, before the hit and when nothing is found
+    odd = [b"/opt/caf\xe9/bin", b"/\xff\xfe", b"\x80", b"/tmp/\xc3\x28/", b"//"]
+    for k, o in enumerate(odd):
+        cases.append(f"in=N out=N err=N det=0 argv={hx('prog')} path={(o + b':' + d['good'].encode()).hex()}")
+        cases.append(f"in=N out=N err=N det=0 argv={hx('prog')} path={(d['missing'].encode() + b'/:' + o + b':' + o).hex()}")
+    cases.append(f"in=P out=P err=P det=0 argv={hx('prog')} path={(b':'.join(odd) + b':' + d['good'].encode() + b'/').hex()}")
     # `PopenConfig::executable`: the name that is looked up differs from argv[0] (shorter, longer, with a slash, missing)
     for a0, exe in [("p", "prog"), ("p", "q" * 255), ("a" * 300, "prog"), ("sh", os.path.join(d["good"], "prog")),
                     ("x", os.path.join(d["missing"], "p" * 200)), ("prog", "nosuchprogram" * 10)]:
@@ -676,11 +709,12 @@ def oracle_c18(c, viol):
     if c["res"][0] != "ok":
         viol(f"launch failed: {' '.join(c['res'])}")
         return
-    snap = snapshot(c) or {}
-    if snap.get("mask") != "0":
-        viol(f"the child execs with signal mask {snap.get('mask')} (spawning thread's mask {c['kv'].get('mask')})")
-    if snap.get("sigpipe") != "DFL":
-        viol(f"the child execs with SIGPIPE disposition {snap.get('sigpipe')}")
+    for k, snap in enumerate(snapshots(c) or [{}]):
+        at = "" if k == 0 else f" at exec attempt {k + 1} (after {k} failed attempt(s) of the PATH search)"
+        if snap.get("mask") != "0":
+            viol(f"the child execs with signal mask {snap.get('mask')} (spawning thread's mask {c['kv'].get('mask')}){at}")
+        if snap.get("sigpipe") != "DFL":
+            viol(f"the child execs with SIGPIPE disposition {snap.get('sigpipe')}{at}")
 
 
 def to_request(c):
@@ -709,7 +743,7 @@ def to_request(c):
         res = t[-1] if "->" in t else None
         def r_ok():
             return "e" + res[1:] if res.startswith("E") else "ok"
-        if kind in ("argv", "envp", "snapshot"):
+        if kind in ("argv", "envp", "snapshot", "resnapshot"):
             continue
         ev = None
         if kind in ("pipe", "pipe2"):
